@@ -1941,14 +1941,15 @@ fn main() {
         json!({"part": "digest/equal", "depth": 0, "content": "k0: lww 'a'@1.r1 ts=1.r1; k1: lww 'b'@1.r2 ts=1.r2",
                "built": "8 construction kinds x 2 insertion orders, repeated until both iteration orders [k0,k1] and [k1,k0] were observed",
                "oracle": "every instance vs the first: differs_from=false, divergent_buckets=[]"}),
-        json!({"part": "digest/unequal", "a": vals[0].canon, "b": vals.get(3).map(|v| v.canon.clone()),
+        json!({"part": "digest/unequal", "depth": 8, "a": "k0: hash{g='y'@1.r2} ts=1.r2", "b": "k0: hash{f='x'@1.r1,g='y'@1.r2} ts=1.r2",
+               "jointly_reachable_by": "r1=H(f=x);r2=H(g=y): delta 2.1 alone vs 2.1 merged with 1.1",
                "oracle": "differs_from=true both ways and the key's bucket listed, for every pair of iteration orders"}),
     ];
     samples.extend(sync_samples);
     let coverage = json!({
         "evaluations": evaluations,
         "distinct_nontrivial": nontrivial_a + sync_nontrivial,
-        "rule": "digest part: (i) every content core^n (6 core values, n<=4 keys) on each key set, built by 8 construction kinds x every insertion order, repeated until every per-bucket HashMap iteration order was observed, each instance compared with the first (non-trivial: >=2 keys share a bucket, i.e. more than one iteration order exists); (ii) for each key set and position, all pairs of distinct values (and key absent) at that position, every pair of observed iteration orders (non-trivial: the two states differ); (iii) merge(A,B) vs merge(B,A) by apply_remote_delta for all base x base value pairs, classified equal/unequal by canonical content (each pair non-trivial). sync part: every pair of deduplicated write histories x per-round limit x merkle config, repeated on fresh nodes until every combination of initial and of final iteration orders was seen (non-trivial: the initial digests differ so that a sync is attempted)",
+        "rule": "values: for every pair of write histories (<= hist_len ops on the key: SET a/b, SET EX, DEL, HSET f/g, HDEL) of replicas 1 and 2, the real merge of every ordered sequence of distinct prefix deltas; two values are jointly reachable iff one such universe yields both. digest part: (i) every content core^n (n<=4 keys) on each key set (merkle depth 0/1/8, keys chosen so that up to 4 share a bucket), built by 8 construction kinds x every insertion order, repeated on fresh HashMaps until every per-bucket iteration order was observed, each instance compared with the first (non-trivial: >=2 keys share a bucket, i.e. more than one iteration order exists); (ii) for each key set and position, all jointly reachable pairs of distinct values (and key absent) at that position, every pair of observed iteration orders (non-trivial: the two states differ in an observable component); (iii) merge(A,B) vs merge(B,A) through apply_remote_delta for all jointly reachable value pairs, judged equal/unequal by canonical content (each pair non-trivial). sync part: every pair of write histories (deduplicated by resulting state) x max_keys_per_sync {1,2,1000} x merkle config, repeated on fresh nodes until every combination of initial iteration orders (and of final orders of equal states) was seen, run_anti_entropy_sync repeated #keys+1 times (non-trivial: the initial digests differ so that a sync is attempted)",
         "exhaustive": exhaustive,
         "samples": samples,
         "values": {"write_history_length_per_replica": hist_len, "universes": space.universes, "merge_sequences_evaluated": space.merges, "distinct_values": vals.len(),
